@@ -67,8 +67,14 @@ def build_ellipse_model(shape, isolist, fill=0.0, high_harmonics=False):
         isolist.sma, isolist.intens, nodes)(finely_spaced_sma)
     eps_array = LSQUnivariateSpline(
         isolist.sma, isolist.eps, nodes)(finely_spaced_sma)
+    # Position angles are only defined modulo pi, so isophotes with the
+    # same orientation can be reported near 0 and near pi. Remove these
+    # artificial jumps before interpolating. Rotating an isophote by pi
+    # changes the sign of its odd (third) harmonics.
+    pa_unwrapped = np.unwrap(isolist.pa, period=np.pi)
+    odd_sign = 1.0 - 2.0 * (np.rint((pa_unwrapped - isolist.pa) / np.pi) % 2)
     pa_array = LSQUnivariateSpline(
-        isolist.sma, isolist.pa, nodes)(finely_spaced_sma)
+        isolist.sma, pa_unwrapped, nodes)(finely_spaced_sma)
     x0_array = LSQUnivariateSpline(
         isolist.sma, isolist.x0, nodes)(finely_spaced_sma)
     y0_array = LSQUnivariateSpline(
@@ -76,9 +82,9 @@ def build_ellipse_model(shape, isolist, fill=0.0, high_harmonics=False):
     grad_array = LSQUnivariateSpline(
         isolist.sma, isolist.grad, nodes)(finely_spaced_sma)
     a3_array = LSQUnivariateSpline(
-        isolist.sma, isolist.a3, nodes)(finely_spaced_sma)
+        isolist.sma, isolist.a3 * odd_sign, nodes)(finely_spaced_sma)
     b3_array = LSQUnivariateSpline(
-        isolist.sma, isolist.b3, nodes)(finely_spaced_sma)
+        isolist.sma, isolist.b3 * odd_sign, nodes)(finely_spaced_sma)
     a4_array = LSQUnivariateSpline(
         isolist.sma, isolist.a4, nodes)(finely_spaced_sma)
     b4_array = LSQUnivariateSpline(
